@@ -401,12 +401,89 @@ def ob_failed_reconfigure():
     return h
 
 
+STAGES = ['none', 'interpreter', 'postconf-hooks', 'backend', 'build.save', 'cmd_line', 'introspection', 'postconf-scripts']
+
+
+def ob_setup_command():
+    """the real msetup.MesonApp._generate with every collaborator recorded and ONE of them failing at a symbolic stage: the order of the persistence steps is the
+    one the kill obligations assume (read cmd_line.txt; run; dump coredata; generate the backend; save build.dat; write - first invocation - or update
+    cmd_line.txt), and a failure after the coredata dump puts the previous coredata.dat back (or removes the new one when there was none), re-raising the error"""
+    def h():
+        import types, argparse
+        from mesonbuild import msetup
+        fail = STAGES[choose(len(STAGES), 'failing stage')]
+        first = decide(sym_bool('first_invocation')); prev = decide(sym_bool('coredata.dat.prev exists'))
+        log = []
+        cdf = '/b/meson-private/coredata.dat'
+
+        def step(name, *a):
+            log.append((name,) + a)
+            if fail == name: raise M.ME('stage %s failed' % name)
+        machines = types.SimpleNamespace(**{m: types.SimpleNamespace(cpu_family='x', cpu='x') for m in ('build', 'host', 'target')})
+        env = types.SimpleNamespace(is_cross_build=lambda: False, machines=machines, get_scratch_dir=lambda: '/b/meson-private', first_invocation=first,
+                                    dump_coredata=lambda: (step('dump-coredata'), cdf)[1],
+                                    coredata=types.SimpleNamespace(cross_files=[], config_files=[], optstore=types.SimpleNamespace(get_value_for=lambda k: 'ninja')))
+        backend = types.SimpleNamespace(name='ninja', generate=lambda c, v: step('backend'), run_postconf_scripts=lambda: step('postconf-scripts'))
+
+        class Interp:
+            def __init__(self, b, user_defined_options=None):
+                self.backend = backend; self.user_defined_options = user_defined_options; self.subprojects = {}
+            def run(self): step('interpreter')
+        app = object.__new__(msetup.MesonApp)
+        app.options = argparse.Namespace(profile=False, cross_file=[], native_file=[], cmd_line_options={})
+        app.build_dir = '/b'; app.source_dir = '/s'
+        app.finalize_postconf_hooks = lambda b, i: step('postconf-hooks')
+        app.check_unused_options = lambda *a: None
+
+        class OsProxy:
+            path = types.SimpleNamespace(join=os.path.join, exists=lambda p: (log.append(('exists', p)), prev)[1])
+            @staticmethod
+            def replace(a, b): log.append(('replace', a, b))
+            @staticmethod
+            def unlink(a): log.append(('unlink', a))
+        saved = (msetup.cmdline, msetup.build, msetup.interpreter, msetup.mintro, msetup.os, msetup.mlog)
+        msetup.cmdline = types.SimpleNamespace(read_cmd_line_file=lambda bd, o: log.append(('read-cmd_line', bd)), format_cmd_line_options=lambda o: '',
+                                               write_cmd_line_file=lambda bd, o: step('cmd_line', 'write', bd), update_cmd_line_file=lambda bd, o: step('cmd_line', 'update', bd))
+        msetup.build = types.SimpleNamespace(Build=lambda e: types.SimpleNamespace(environment=e), save=lambda b, f: step('build.save', f))
+        msetup.interpreter = types.SimpleNamespace(Interpreter=Interp)
+        msetup.mintro = types.SimpleNamespace(write_meson_info_file=lambda b, errs, *a: log.append(('info', len(errs))), generate_introspection_file=lambda b, be: step('introspection'))
+        msetup.os = OsProxy
+        from harness.common import quiet_mlog
+        msetup.mlog = quiet_mlog()
+        raised = False
+        try:
+            app._generate(env, False, None)
+        except M.ME:
+            raised = True
+        finally:
+            msetup.cmdline, msetup.build, msetup.interpreter, msetup.mintro, msetup.os, msetup.mlog = saved
+        kinds = [e[0] for e in log]
+        order = ['read-cmd_line', 'interpreter', 'dump-coredata', 'postconf-hooks', 'backend', 'build.save', 'cmd_line', 'introspection']
+        done = [k for k in kinds if k in order]
+        upto = order if fail in ('none', 'postconf-scripts') else order[:order.index(fail) + 1]
+        check(done == upto, 'the persistence steps run in the order the kill obligations assume, up to the failing one')
+        if 'cmd_line' in kinds:
+            e = [x for x in log if x[0] == 'cmd_line'][0]
+            check(e[1] == ('write' if first else 'update') and e[2] == '/b', 'a first invocation writes cmd_line.txt, a later one updates it')
+        check(raised == (fail != 'none'), 'the error of a failing stage is re-raised (the command fails)')
+        rollback = [e for e in log if e[0] in ('replace', 'unlink')]
+        if fail == 'none' or fail == 'interpreter':
+            check(not rollback, 'no roll-back without a failure after the coredata dump')
+            cover('completed' if fail == 'none' else 'failed-before-dump')
+        else:
+            check(rollback == ([('replace', cdf + '.prev', cdf)] if prev else [('unlink', cdf)]), 'a failure after the coredata dump puts the previous coredata.dat back, or removes the new one when there was none')
+            check(('info', 1) in log, 'the failure is recorded in meson-info')
+            cover('rolled-back')
+    return h
+
+
 def obligations(tier):
     out = []
     for c in ('configure', 'reconfigure', 'first-setup'):
         out.append(Obligation('kill[%s]' % c, ob_kill(c), dict(command=c, kill_step='symbolic 1..60 (every step of the command)', interrupted_write='every prefix'),
                               labels=('killed', 'completed', 'loaded') + (('regenerated',) if c == 'first-setup' else ()), optional_labels=('regenerated',), max_paths=200000, path_timeout=120))
     out.append(Obligation('failed-reconfigure', ob_failed_reconfigure(), dict(earlier_successful_saves='0..3', rollback='the except-branch of MesonApp._generate, mirrored'), labels=('first-setup', 'rolled-back')))
+    out.append(Obligation('setup-command', ob_setup_command(), dict(real='msetup.MesonApp._generate', recorded='Interpreter, Build, build.save, backend, cmdline.*, mintro, os.replace/unlink/path.exists', failing_stage=STAGES, first_invocation='symbolic', prev_exists='symbolic'), labels=('completed', 'failed-before-dump', 'rolled-back')))
     out.append(Obligation('recover', ob_recover(), dict(coredata_dat='intact | absent | empty | truncated', cmd_line_txt='present | absent', leftover_temp_files='both'),
                           labels=('loaded', 'regenerated', 'unrecoverable')))
     return out
